@@ -417,7 +417,13 @@ def run_routes(case):
         n_late = min(case.get('late', 0), len(routes) - 1) if case.get('open_delay') else 0
         face.open_delay = case.get('open_delay', 0) / 1000
 
+        n_decl = [0]
+
         def declare(p):
+            # the prefix in any legal form: list / tuple / one-shot generator / one-shot iterator
+            form = (case.get('name_form', 0) + n_decl[0]) % 4
+            n_decl[0] += 1
+            p = list(p) if form == 0 else tuple(p) if form == 1 else (c for c in list(p)) if form == 2 else iter(list(p))
             if fe == 'v2':
                 sim.app.route(p)(lambda n, a, rp, c: None)
             else:
@@ -495,7 +501,7 @@ def _routes_case():
                                   'routes': st.lists(S.name(1, 3, 8, allow_digest_types=False), min_size=1, max_size=4,
                                                      unique_by=str),
                                   'latency': st.sampled_from([0, 1, 5]), 'open_delay': st.sampled_from([0, 20]),
-                                  'late': st.integers(0, 2), 'during': st.booleans(), 'dup': st.sampled_from([0, 0, 1, 2, 3]), 'end': st.sampled_from(['shutdown', 'cancel', 'transport-error'])})
+                                  'late': st.integers(0, 2), 'during': st.booleans(), 'dup': st.sampled_from([0, 0, 1, 2, 3]), 'name_form': st.integers(0, 3), 'end': st.sampled_from(['shutdown', 'cancel', 'transport-error'])})
 
 
 # ---- parse_response round trip -----------------------------------------------------------------------------------------------
